@@ -642,6 +642,8 @@ def atom_semantics(text):
         return ("sessions", False)
     if t in ("values['tag'] == TPM_ST.SESSIONS", "TPM_ST.SESSIONS == values['tag']"):
         return ("sessions", True)
+    if t in ("values['tag'] == TPM_ST.NO_SESSIONS", "TPM_ST.NO_SESSIONS == values['tag']"):
+        return ("sessions", False, "when-true")   # (says nothing when false: another tag may still be the sessions tag)
     if t in ("values['responseCode'] != TPM_RC.SUCCESS", "TPM_RC.SUCCESS != values['responseCode']"):
         return ("failed", True)
     if t in ("values['responseCode'] == TPM_RC.SUCCESS", "TPM_RC.SUCCESS == values['responseCode']"):
@@ -671,12 +673,19 @@ def framing(run, roles, L):
                 a = atom_semantics(text)
                 if a is None:
                     unknown.append(text)
+                elif len(a) == 3 and a[2] == "when-true":
+                    if val:
+                        sem[a[0]] = a[1]
+                    else:
+                        sem.setdefault(a[0], None)   # a tag other than this one: undecided unless another test decides
                 else:
-                    sem[a[0]] = (val == a[1]) if a[1] else (not val)
                     sem[a[0]] = val if a[1] else not val
             vid = "[" + ", ".join(f"{k}={v}" for k, v in sorted(sem.items())) + ("; " + "; ".join(unknown) if unknown else "") + "]"
             procs = [e for e in tr.trace if e.kind == "process"]
             got = [p.data["field"] for p in procs]
+            if sem.get("sessions", 0) is None:
+                # (every tag that is not the sessions tag is framed like NO_SESSIONS: the reference layout without sessions)
+                sem["sessions"] = False
             sessions = sem.get("sessions")
             failed = sem.get("failed") if w == "process_response" else False
             key = (w, bool(sessions)) if w == "process_command" else (w, bool(sessions), bool(failed))
@@ -724,6 +733,21 @@ def framing(run, roles, L):
                            construct=f"{w} array_size_constraint of {f}")
                 # encryption flag
                 pe = p.data["kwargs"].get("parameter_encryption")
+                # a value read back from the object under construction is the value that was stored there
+                st_now = {e.data["key"]: e.data["value"] for e in tr.trace if e.kind == "store" and e.data.get("dict") == "values"}
+
+                def back(v):
+                    if isinstance(v, tuple):
+                        if len(v) == 2 and v[0] == "value" and v[1] in st_now:
+                            return st_now[v[1]]
+                        return tuple(back(x) for x in v)
+                    return v
+                pe = back(pe)
+                # the predicate called without any session area answers False (C09-S3): `E(None) or None` is None
+                if isinstance(pe, tuple) and pe[:1] == ("ornone",) and isinstance(pe[1], tuple) and pe[1][:1] == ("penc",) \
+                        and [x for _k, x in pe[1][1] if _k in ("authorizationArea", "command")] + list(pe[1][2]) == [("const", None)] \
+                        and not [x for _k, x in pe[1][1] if _k not in ("authorizationArea", "command", "for_response")]:
+                    pe = ("const", None)
                 if w == "process_command":
                     if f == "parameters" and sessions:
                         auth = next((q for q in procs if q.data["field"] == "authorizationArea"), None)
@@ -741,6 +765,18 @@ def framing(run, roles, L):
                     run.ob("F", pe == ("param", "parameter_encryption"), f"{w} {vid}: caller's encryption flag reaches {f}",
                            f"parameter_encryption for {f} is `{render(pe)}`", module=mod, node=p.node, func=w,
                            construct=f"{w} parameter_encryption of {f}")
+            # the cross-check of the caller's encryption flag against the decoded session area can only be made where a
+            # session area was decoded: evaluated in any other variant (no sessions, failed response) it compares the flag
+            # with "no area" and fails for a perfectly well-formed message whose command asked for response encryption
+            if w == "process_response":
+                for e in tr.trace:
+                    if e.kind == "assertion" and "parameter_encryption" in e.data["src"]:
+                        has_area = "authorizationArea" in [q.data["field"] for q in procs]
+                        run.ob("F", has_area, f"{w} {vid}: the encryption cross-check is made only where a session area was decoded",
+                               f"`assert {e.data['src'][:70]}` is evaluated in the variant {vid}, which decodes no session area: a well-formed "
+                               "message of this kind (a failed response, a response without sessions) decoded with the encryption flag set "
+                               "dies with AssertionError after its header", module=mod, node=e.node, func=w,
+                               construct=f"{w} cross-check outside session variants")
             # stores: values[f] = decoded value, for exactly the processed fields
             stores = {e.data["key"]: e for e in tr.trace if e.kind == "store" and e.data["dict"] == "values"}
             for p in procs:
